@@ -78,6 +78,8 @@ def level_value(lv, thr):
         return thr
     if lv == 2:
         return float(np.nextafter(thr, np.inf))
+    if lv == 4:  # a NEGATIVE score (user-defined and cost-based scores may be negative)
+        return -1.5 * thr
     return 2.0 * thr
 
 
@@ -242,6 +244,10 @@ def detect_cases(tier):
                     if p == 2 and (sum(lv) % 3):  # p=2 on a fixed third of the tables
                         continue
                     yield {"fam": "detect", "n": n, "b": b, "p": p, "mdi": mdi, "levels": list(lv)}
+            if m <= 5:  # tables with negative scores
+                for lv in itertools.product((4, 2, 3), repeat=m):
+                    if 4 in lv:
+                        yield {"fam": "detect", "n": n, "b": b, "p": 1, "mdi": mdi, "levels": list(lv)}
 
 
 def dev_vectors(m, nz, d):
